@@ -154,7 +154,9 @@ func c13Recipe(c *core.Ctx, r ref.CharRecipe) {
 	case mustRefuse && out.HasPw:
 		c.Violation(key+" not-refused", fmt.Sprintf("Generate returned %q although the recipe cannot be honoured (%s)", out.Str, why), rp)
 	case mustRefuse && !refused:
-		c.Violation(key+" late", fmt.Sprintf("recipe cannot be honoured (%s) but Generate consumed %d random words before failing", why, t.Words), rp)
+		// an error after some draws still satisfies the property ("returns an
+		// error, no password, no panic"); only counted
+		c.Count("refused_after_drawing", 1)
 	case mustAccept && !out.HasPw:
 		c.Violation(key+" refused", fmt.Sprintf("Generate failed (%s) although the recipe can be honoured: %s", out.Err, why), rp)
 	case mustAccept && !r.Valid(tokChars(out.Toks)):
@@ -366,7 +368,7 @@ func c13Degenerate(c *core.Ctx) {
 		case !cs.ok && out.HasPw:
 			c.Violation(key+" not-refused", fmt.Sprintf("Generate returned %q for a recipe that cannot be honoured", out.Str), rp)
 		case !cs.ok && t.Words != 0:
-			c.Violation(key+" late", "random words consumed before refusing", rp)
+			c.Count("refused_after_drawing", 1)
 		case cs.ok && !out.HasPw:
 			c.Violation(key+" refused", "Generate failed: "+out.Err, rp)
 		}
@@ -484,7 +486,7 @@ func init() {
 		Level: "model_checking",
 		Rule: "every recipe of the overlap universe {a,b,c,d} (allow/exclude subsets x multisets of 0-2/0-3 required subsets x lengths 1-8), all 2^15 class-flag triples, structurally degenerate character and wordlist recipes, and an all-attempts-fail tape policy under 5 (MaxTrials, MaxFailRate) settings, each run on the real SuccessProbability/Generate; " +
 			"oracle: exact rational success probability, refusal iff cannot be honoured (with a rounding band around the threshold), never a panic, never password+error, at most MaxTrials*Length draws; non-trivial = must-accept recipes with requirements and must-refuse recipes",
-		Assume:    []string{"recipes in which exclusion empties one required set are classified 'either' (C03 reads them as void, C13's wording allows refusing)", "refusal is recognised as an error before any random word is consumed"},
+		Assume:    []string{"recipes in which exclusion empties one required set are classified 'either' (C03 reads them as void, C13's wording allows refusing)"},
 		Run:       c13Run,
 		StatesKey: "executions", TransKey: "executions",
 	})
